@@ -39,7 +39,11 @@ impl Parse for Expr {}
 impl Parse for Type {}
 
 pub trait ParseUnit<N> {
+    /// what this unit parser promises about the `next` group it hands back (for the chain builder: `opt_group_wf`,
+    /// the verified postcondition of `parse_until`'s suffix)
+    spec fn next_wf(&self, n: Option<N>) -> bool;
     /// opaque (syn-driven): parses input until the next group
-    fn parse_unit<T: Parse>(&self, input: ParseStream<'_>, allow_empty_parsed: bool) -> (r: UnitResult<T, N>);
+    fn parse_unit<T: Parse>(&self, input: ParseStream<'_>, allow_empty_parsed: bool) -> (r: UnitResult<T, N>)
+        ensures r is Ok ==> self.next_wf(r->Ok_0.next);
 }
 pub type UnitResult<T, N> = syn::Result<Unit<T, N>>;
